@@ -8,7 +8,9 @@ CLAIMED = {
    text="Seeded search over histories of interchange requests on random diagrams (incl. degenerate shapes, "
         "illegal and out-of-range requests, interruption inside the call, scribbling on returned lists); every "
         "outcome compared with the independent model M1 (exchange legality, resulting boxes/offsets) and every "
-        "returned diagram with the exact integer semantics M2. Evidence over the explored histories, not proof.",
+        "returned diagram with the exact integer semantics M2. Clothing: monoidal, rigid (with cups/caps), tensor, "
+        "circuit, zx, cartesian; boxes with data, daggers, equal names, shared objects. Every run in a fresh "
+        "forked process; violations are minimised (ddmin) and replayed. Evidence over the explored histories, not proof.",
    note="Trusted: M1 exchange rule (DESIGN 4), M2 integer functors (2 per move), sizes <= 9 boxes / 6 wires. "
         "A refusal that depends on the tie-break between two legal sides (scalar/effect directly above a state at "
         "the same offset) is accepted either way.",
@@ -16,30 +18,39 @@ CLAIMED = {
  "C06": dict(engine="rewrite",
    text="Confluence checked as schedule-independence: walkers moved by scheduled legal interchanges, M1-enumerated "
         "interchanger classes, lazy normalisers stepped/interleaved/abandoned, every yielded step validated as one "
-        "legal interchange, termination reporting decided by deterministic line budgets. Exploration.",
+        "legal interchange and re-checked after the generator has moved on, the same request asked twice must "
+        "answer the same, termination reporting decided by deterministic line budgets, interruption followed by "
+        "further use. Exploration.",
    note="Trusted: M1 class enumeration (capped), M1 connectivity, M2; membership asserted only for fully enumerated classes.",
    ref="5.2"),
  "C07": dict(engine="rewrite",
    text="Lazy snake-removal traces on random rigid diagrams stepped under a scheduler with abandonment and "
         "interruption; every step must be one legal interchange or the deletion of one M1-valid snake, with "
-        "dom/cod, well-typedness and exact integer denotation preserved; NotImplementedError only when M1 says disconnected.",
+        "dom/cod, well-typedness and exact integer denotation preserved; NotImplementedError only when M1 says "
+        "disconnected. Inputs: random growth, snake templates with obstructions, look-alike non-snakes, diagrams built "
+        "by the library's own transposes/cups, self-dual PRO types, one object at several positions.",
    note="Trusted: M1 snake follower, M2 rigid semantics (same dimension for all adjoints).",
    ref="5.3"),
  "C01": dict(engine="session",
    text="Session simulator over all diagram classes with the in-library invariant monitor re-scanning every fast-path "
         "construction (including intermediate diagrams no caller sees), caller-side scans of every returned value, "
-        "ill-typed requests (F1), interruption (F5), callback failure (F3), scribbling (F7). Exploration.",
+        "ill-typed requests (F1), interruption (F5) followed by probe requests, callback failure (F3), scribbling "
+        "(F7), a second PRNG seam (random_tiling); plus slices of the three other engines policed by the monitor. "
+        "Exploration.",
    note="Trusted: the monitor's scan (sim/world.py), the M1 type scan; hooks DISCOPY_VERIF in Diagram/Arrow constructors.",
    ref="5.4"),
  "C13": dict(engine="backend",
    text="Backend peer simulator: discopy clients submit circuits to an in-process discrete-event backend that completes "
         "jobs out of order, varies result representation, and fails; results compared with an exact simulator (M3) of the "
-        "exported tket circuit and with local mixed evaluation. Exploration.",
+        "exported tket circuit and with local mixed evaluation; the peer may keep and re-serve result objects; raw "
+        "frequencies; compilation passes that change the circuit and then fail; near-duplicate circuits in one batch; "
+        "interruption of a call followed by the same call. Exploration.",
    note="Trusted: pytket Op.get_unitary for gate matrices, M3 branch simulator; <= 5 wires, <= 10 boxes; atol 1e-9.",
    ref="5.5"),
  "C18": dict(engine="grammar",
    text="CFG.generate under an adversarial PRNG owned by the simulator (every shuffle a scheduler decision), generators "
-        "interleaved and abandoned; parser and biclosed translation clauses ride along as plain oracles (M4). Exploration.",
+        "interleaved, interrupted and abandoned, sentences re-checked after the generator has moved on; parser and "
+        "biclosed translation clauses ride along as plain oracles (M4). Exploration.",
    note="Trusted: M4 derivation checker and slash-type wire count.",
    ref="5.6"),
 }
